@@ -38,16 +38,23 @@ fn gen_large(rng: &mut Rng) -> Scn {
     o.oti = Some(OtiSpec::new(Scheme::NoCode, 1400, b, 0, rng.chance(0.5)));
     let ops = vec![TimedOp { when: When::AtUs(0), op: Op::Add(0) }, TimedOp { when: When::AtUs(0), op: Op::Publish }];
     let poll = PollSpec { start_us: 0, gap: GapSpec::FixedUs(1000), burst: None, max_polls: 100, max_pkts: 4000, idle_polls_after_done: 1 };
-    let variant = match rng.below(3) {
+    let mut variant = match rng.below(3) {
         0 => SourceSpec::Stream(ReadSched::Full),
         1 => SourceSpec::Stream(ReadSched::BufLike(8192)),
         _ => SourceSpec::File,
     };
+    if rng.chance(0.5) {
+        // a large, poorly compressible object handed over pre-encoded (the application-side encoder is fed whole, in
+        // 1 MiB reads): the encoded stream is what the buffer variant's encoding is
+        o.cenc = *rng.pick(&[CencSpec::Gzip, CencSpec::Gzip, CencSpec::Zlib, CencSpec::Deflate]);
+        o.kind = *rng.pick(&[ContentKind::Random, ContentKind::Random, ContentKind::Counter]);
+        variant = SourceSpec::PreEncodedStream(if rng.chance(0.5) { ReadSched::Full } else { ReadSched::BufLike(8192) });
+    }
     Scn { sender: SenderScn { spec, objects: vec![o], ops, poll, snapshots: false }, variants: vec![variant], via_builder: false }
 }
 
 pub fn gen(rng: &mut Rng, tier: Tier) -> Scn {
-    if rng.chance(0.004) {
+    if rng.chance(0.008) {
         return gen_large(rng);
     }
     let soti = gen_sender_oti(rng, None);
@@ -107,6 +114,11 @@ pub fn gen(rng: &mut Rng, tier: Tier) -> Scn {
                 _ => ReadSched::Random { seed: rng.next_u64(), max: *rng.pick(&[10usize, 100, 5000]) },
             };
             *variants.last_mut().unwrap() = SourceSpec::PreEncodedStream(sched);
+            if rng.chance(0.2) {
+                // a file that is streamed (not cached in RAM) cannot be content-encoded by flute: it is REFUSED, never sent
+                // raw under the label of the encoding
+                *variants.last_mut().unwrap() = SourceSpec::File;
+            }
         } else if rng.chance(0.06) {
             // a transient I/O error: one read of the stream fails once with a non-retryable kind, in the middle of short
             // reads. The transfer may be cut, the object may even be refused - but no packet ever carries other bytes
@@ -196,6 +208,16 @@ pub fn run(scn: &Scn, ctx: &Ctx, scratch: &Path) {
                 }
                 // (the buffer run may not have reached this symbol: operations tied to packet counts fall elsewhere)
                 None => ctx.borrow_mut().note("read-error:symbol-not-in-buffer-run"),
+            }
+        }
+        return;
+    }
+    // a streamed file with a content encoding: refused when it is added (the buffer variant is accepted, the runs differ)
+    let refused_expected: Vec<usize> = (0..scn.variants.len()).filter(|i| scn.variants[*i] == SourceSpec::File && scn.sender.objects[*i].cenc != CencSpec::Null).collect();
+    if !refused_expected.is_empty() {
+        for i in refused_expected {
+            if b.obj_toi.get(i).copied().flatten().is_some() {
+                violate(ctx, "C20/streamed-file-with-cenc-not-refused", "-", format!("object {}: a file that is streamed (cache_in_ram = false) was accepted with content encoding {:?}: flute cannot encode it, it would be sent raw under that label", i, scn.sender.objects[i].cenc));
             }
         }
         return;
